@@ -721,25 +721,68 @@ def as_sfloat(o):
 EPOCH = _dt.datetime(1970, 1, 1)
 
 
+def _f0(f):
+    return f is None or (_is_num(f) and _numval(f) == 0)
+
+
+def _lex(op, s1, f1, s2, f2):
+    """(s1 + f1) op (s2 + f2) for Int seconds s and Real fractions f in [0,1)"""
+    if _f0(f1) and _f0(f2):
+        if op == "==":
+            return mk_eq(s1, s2)
+        return _cmp(op, s1, s2)
+    f1 = rv(0) if f1 is None else f1
+    f2 = rv(0) if f2 is None else f2
+    if op == "==":
+        return mk_and(mk_eq(s1, s2), mk_eq(f1, f2))
+    if op == "<":
+        return mk_or(_cmp("<", s1, s2), mk_and(mk_eq(s1, s2), _cmp("<", f1, f2)))
+    if op == "<=":
+        return mk_or(_cmp("<", s1, s2), mk_and(mk_eq(s1, s2), _cmp("<=", f1, f2)))
+    if op == ">":
+        return _lex("<", s2, f2, s1, f1)
+    return _lex("<=", s2, f2, s1, f1)
+
+
+def _sub_sf(s1, f1, s2, f2):
+    """normalised (s, f) of (s1+f1) - (s2+f2)"""
+    if _f0(f1) and _f0(f2):
+        return _arith("-", s1, s2), None
+    f1 = rv(0) if f1 is None else f1
+    f2 = rv(0) if f2 is None else f2
+    ge = _cmp(">=", f1, f2)
+    return _arith("-", s1, s2) + mk_if(ge, z3.IntVal(0), z3.IntVal(-1)), mk_if(ge, f1 - f2, f1 - f2 + 1)
+
+
+def _add_sf(s1, f1, s2, f2):
+    if _f0(f1) and _f0(f2):
+        return _arith("+", s1, s2), None
+    f1 = rv(0) if f1 is None else f1
+    f2 = rv(0) if f2 is None else f2
+    carry = _cmp(">=", f1 + f2, rv(1))
+    return _arith("+", s1, s2) + mk_if(carry, z3.IntVal(1), z3.IntVal(0)), mk_if(carry, f1 + f2 - 1, f1 + f2)
+
+
 class STime(Sym):
-    """datetime64: whole seconds since the epoch (z3 Int) + NaT flag."""
+    """datetime64: whole seconds since the epoch (z3 Int) + optional sub-second fraction f in [0,1) (z3 Real) + NaT flag."""
 
-    __slots__ = ("nat", "s")
+    __slots__ = ("nat", "s", "f")
 
-    def __init__(self, s, nat=FALSE):
+    def __init__(self, s, nat=FALSE, f=None):
         if isinstance(s, int):
             s = z3.IntVal(s)
         self.s = s
         self.nat = nat
+        self.f = None if _f0(f) else f
 
     def _short(self):
-        return f"{str(self.s)[:50]}"
+        return f"{str(self.s)[:50]}" + ("" if self.f is None else f"+{str(self.f)[:20]}")
 
     __hash__ = object.__hash__
 
     @property
     def is_const(self):
-        return z3.is_int_value(self.s) and (is_f(self.nat) or is_t(self.nat))
+        return z3.is_int_value(self.s) and (is_f(self.nat) or is_t(self.nat)) and (self.f is None or _is_num(self.f))
 
     def _cmp(self, o, op):
         o = as_stime(o)
@@ -747,10 +790,10 @@ class STime(Sym):
             return o
         ok = mk_and(mk_not(self.nat), mk_not(o.nat))
         if op == "==":
-            return SBool(mk_and(ok, mk_eq(self.s, o.s)))
+            return SBool(mk_and(ok, _lex("==", self.s, self.f, o.s, o.f)))
         if op == "!=":
-            return SBool(mk_or(mk_not(ok), mk_not(mk_eq(self.s, o.s))))
-        return SBool(mk_and(ok, _cmp(op, self.s, o.s)))
+            return SBool(mk_or(mk_not(ok), mk_not(_lex("==", self.s, self.f, o.s, o.f))))
+        return SBool(mk_and(ok, _lex(op, self.s, self.f, o.s, o.f)))
 
     def __lt__(self, o):
         return self._cmp(o, "<")
@@ -772,21 +815,25 @@ class STime(Sym):
 
     def __sub__(self, o):
         if isinstance(o, SDelta):
-            return STime(_arith("-", self.s, o.s), mk_or(self.nat, o.nat))
+            s, f = _sub_sf(self.s, self.f, o.s, o.f)
+            return STime(s, mk_or(self.nat, o.nat), f)
         o2 = as_stime(o)
         if o2 is NotImplemented:
             return o2
-        return SDelta(_arith("-", self.s, o2.s), mk_or(self.nat, o2.nat))
+        s, f = _sub_sf(self.s, self.f, o2.s, o2.f)
+        return SDelta(s, mk_or(self.nat, o2.nat), f)
 
     def __rsub__(self, o):
         o2 = as_stime(o)
         if o2 is NotImplemented:
             return o2
-        return SDelta(_arith("-", o2.s, self.s), mk_or(self.nat, o2.nat))
+        s, f = _sub_sf(o2.s, o2.f, self.s, self.f)
+        return SDelta(s, mk_or(self.nat, o2.nat), f)
 
     def __add__(self, o):
         if isinstance(o, SDelta):
-            return STime(_arith("+", self.s, o.s), mk_or(self.nat, o.nat))
+            s, f = _add_sf(self.s, self.f, o.s, o.f)
+            return STime(s, mk_or(self.nat, o.nat), f)
         return NotImplemented
 
     __radd__ = __add__
@@ -815,18 +862,19 @@ class STime(Sym):
 
 
 class SDelta(Sym):
-    """timedelta64: whole seconds (z3 Int) + NaT flag."""
+    """timedelta64: floor seconds (z3 Int) + optional fraction f in [0,1) + NaT flag; value = s + f."""
 
-    __slots__ = ("nat", "s")
+    __slots__ = ("nat", "s", "f")
 
-    def __init__(self, s, nat=FALSE):
+    def __init__(self, s, nat=FALSE, f=None):
         if isinstance(s, int):
             s = z3.IntVal(s)
         self.s = s
         self.nat = nat
+        self.f = None if _f0(f) else f
 
     def _short(self):
-        return f"{str(self.s)[:50]}s"
+        return f"{str(self.s)[:50]}s" + ("" if self.f is None else f"+{str(self.f)[:20]}")
 
     __hash__ = object.__hash__
 
@@ -837,10 +885,10 @@ class SDelta(Sym):
                 return o
         ok = mk_and(mk_not(self.nat), mk_not(o.nat))
         if op == "==":
-            return SBool(mk_and(ok, mk_eq(self.s, o.s)))
+            return SBool(mk_and(ok, _lex("==", self.s, self.f, o.s, o.f)))
         if op == "!=":
-            return SBool(mk_or(mk_not(ok), mk_not(mk_eq(self.s, o.s))))
-        return SBool(mk_and(ok, _cmp(op, self.s, o.s)))
+            return SBool(mk_or(mk_not(ok), mk_not(_lex("==", self.s, self.f, o.s, o.f))))
+        return SBool(mk_and(ok, _lex(op, self.s, self.f, o.s, o.f)))
 
     def __lt__(self, o):
         return self._cmp(o, "<")
@@ -862,18 +910,21 @@ class SDelta(Sym):
 
     def __add__(self, o):
         if isinstance(o, SDelta):
-            return SDelta(_arith("+", self.s, o.s), mk_or(self.nat, o.nat))
+            s, f = _add_sf(self.s, self.f, o.s, o.f)
+            return SDelta(s, mk_or(self.nat, o.nat), f)
         if isinstance(o, STime):
             return o + self
         return NotImplemented
 
     def __sub__(self, o):
         if isinstance(o, SDelta):
-            return SDelta(_arith("-", self.s, o.s), mk_or(self.nat, o.nat))
+            s, f = _sub_sf(self.s, self.f, o.s, o.f)
+            return SDelta(s, mk_or(self.nat, o.nat), f)
         return NotImplemented
 
     def __neg__(self):
-        return SDelta(_arith("-", z3.IntVal(0), self.s), self.nat)
+        s, f = _sub_sf(z3.IntVal(0), None, self.s, self.f)
+        return SDelta(s, self.nat, f)
 
     def astype(self, t):
         from . import symnp
@@ -884,16 +935,12 @@ def as_sdelta(o):
     if isinstance(o, SDelta):
         return o
     if isinstance(o, _dt.timedelta):
-        if o.microseconds:
-            raise Unsupported("sub-second timedelta")
-        return SDelta(o.days * 86400 + o.seconds)
+        return SDelta(o.days * 86400 + o.seconds, FALSE, rv(Fraction(o.microseconds, 10 ** 6)) if o.microseconds else None)
     tn = type(o).__name__
     if tn == "timedelta64" or tn == "Timedelta":
         import numpy as np
         ns = int(np.timedelta64(o, "ns").astype("int64")) if tn == "timedelta64" else int(o.value)
-        if ns % 10 ** 9:
-            raise Unsupported("sub-second timedelta")
-        return SDelta(ns // 10 ** 9)
+        return SDelta(ns // 10 ** 9, FALSE, rv(Fraction(ns % 10 ** 9, 10 ** 9)) if ns % 10 ** 9 else None)
     return NotImplemented
 
 
@@ -905,24 +952,18 @@ def as_stime(o):
         if o.tzinfo is not None:
             o = o.tz_convert(None) if hasattr(o, "tz_convert") else o
         ns = int(o.value)
-        if ns % 10 ** 9:
-            raise Unsupported("sub-second Timestamp")
-        return STime(ns // 10 ** 9)
+        return STime(ns // 10 ** 9, FALSE, rv(Fraction(ns % 10 ** 9, 10 ** 9)) if ns % 10 ** 9 else None)
     if tn == "datetime64":
         import numpy as np
         if np.isnat(o):
             return STime(0, TRUE)
         ns = int(o.astype("datetime64[ns]").astype("int64"))
-        if ns % 10 ** 9:
-            raise Unsupported("sub-second datetime64")
-        return STime(ns // 10 ** 9)
+        return STime(ns // 10 ** 9, FALSE, rv(Fraction(ns % 10 ** 9, 10 ** 9)) if ns % 10 ** 9 else None)
     if isinstance(o, _dt.datetime):
         if o.tzinfo is not None:
             o = o.astimezone(_dt.timezone.utc).replace(tzinfo=None)
         d = o - EPOCH
-        if d.microseconds:
-            raise Unsupported("sub-second datetime")
-        return STime(d.days * 86400 + d.seconds)
+        return STime(d.days * 86400 + d.seconds, FALSE, rv(Fraction(d.microseconds, 10 ** 6)) if d.microseconds else None)
     if isinstance(o, str):
         import pandas as pd
         return as_stime(pd.Timestamp(o))
